@@ -30,12 +30,15 @@ Fixpoint leqb (a b : list nat) : bool :=
 (* Greedy decoding                                                                            *)
 (* ------------------------------------------------------------------------------------------ *)
 
-(* `arg_max` = Iterator::max_by over the lane: `max_by` keeps the LATER element when the
-   comparison says Equal, so ties resolve to the last maximal index. *)
+(* `arg_max` = select_max_index/max_position_by over the lane: a reduce that replaces the best
+   element only when the next one compares Greater, so ties resolve to the FIRST maximal index
+   (since "fix: ArgMax/ArgMin select the first of several equal extrema"; before that commit
+   Iterator::max_by returned the last).  The tie-break is a policy: the check does not alarm on
+   it (see `agree`), it only reports drift from this deterministic model. *)
 Fixpoint argmax_from (bi : nat) (b : N) (i : nat) (r : list N) : nat :=
   match r with
   | [] => bi
-  | x :: r' => if b <=? x then argmax_from i x (S i) r' else argmax_from bi b (S i) r'
+  | x :: r' => if b <? x then argmax_from i x (S i) r' else argmax_from bi b (S i) r'
   end.
 Definition argmax_row (r : row) : nat :=
   match r with [] => 0%nat | x :: r' => argmax_from 0 x 1 r' end.
@@ -371,7 +374,7 @@ Definition beam_agree (c : case) : bool :=
 
 (* Tie-breaking of arg_max is a policy the property does not constrain ("the arg-max path" is any
    path of row maxima): the alarm-raising comparison accepts every tie-break (greedy_ok); whether
-   the implementation still uses the tie-break modelled by argmax_row (last maximum) is reported
+   the implementation still uses the tie-break modelled by argmax_row (first maximum) is reported
    as an informational count through greedy_agree. *)
 Definition agree (c : case) : bool := greedy_ok c && beam_agree c.
 Definition greedy_tiebreak_as_modelled (c : case) : bool := greedy_agree c.
